@@ -1016,8 +1016,13 @@ func writeEvidence(prop string, pc propCfg, tier string, base uint64, a *agg, wa
 		"violations":  nviol,
 	}
 	b, _ := json.MarshalIndent(ev, "", " ")
-	os.MkdirAll(filepath.Join(verifDir, "evidence"), 0o755)
-	if err := os.WriteFile(filepath.Join(verifDir, "evidence", prop+".json"), b, 0o644); err != nil {
+	evDir := filepath.Join(verifDir, "evidence")
+	if os.Getenv("VERIF_REPO") != "" {
+		// a run against another tree (seeded change, background snapshot) is not evidence about /repo
+		evDir = filepath.Join(verifDir, ".build", "evidence-other-tree")
+	}
+	os.MkdirAll(evDir, 0o755)
+	if err := os.WriteFile(filepath.Join(evDir, prop+".json"), b, 0o644); err != nil {
 		infra("evidence: %v", err)
 	}
 }
